@@ -2841,6 +2841,262 @@ theorem growthBinaryPh_sign (c : Cfg α) (x D : α) (pc : PhaseCfg α) (ps : Pha
          C12.growthBinary_neg_iff _ _ _ _ _ _ _ _ _ hkin hD heff hR hden⟩
 
 
+/-! ### multicomponent models never read the binary lookup fields -/
+
+/-- overwrite the three binary-lookup attributes (`_lookupTemperature`, `_lookupXEq`) -/
+def setLook (L : α × List (List α) × List (List α)) (s : St α) : St α :=
+  { s with lookT := L.1, lookEqA := L.2.1, lookEqB := L.2.2 }
+
+@[simp] theorem setLook_ph (L : α × List (List α) × List (List α)) (s : St α) : (setLook L s).ph = s.ph := rfl
+@[simp] theorem setLook_hist (L : α × List (List α) × List (List α)) (s : St α) : (setLook L s).hist = s.hist := rfl
+
+theorem growthRate_setLook (c : Cfg α) (hb : c.binary = false) (L : α × List (List α) × List (List α)) (s : St α)
+    (a : EvalAns α) (y : Slice α) :
+    growthRate c (setLook L s) a y = (setLook L (growthRate c s a y).1, (growthRate c s a y).2) := by
+  unfold growthRate
+  simp only [hb, Bool.false_eq_true, if_false]
+  rfl
+
+theorem nucleation_setLook (c : Cfg α) (L : α × List (List α) × List (List α)) (s : St α) (t : α) (x : List (List α))
+    (a : EvalAns α) (y : Slice α) : nucleation c (setLook L s) t x a y = nucleation c s t x a y :=
+  nucleation_congr c _ _ t x a y rfl rfl
+
+theorem depEval_setLook (c : Cfg α) (hb : c.binary = false) (L : α × List (List α) × List (List α)) (s : St α) (t : α)
+    (x : List (List α)) (a : EvalAns α) (y : Slice α) :
+    depEval c (setLook L s) t x a y = (setLook L (depEval c s t x a y).1, (depEval c s t x a y).2) := by
+  unfold depEval
+  simp only
+  rw [nucleation_setLook]
+  have : KWNFull.massBalance c (setLook L s) x a { y with time := t, temp := a.T } =
+      KWNFull.massBalance c s x a { y with time := t, temp := a.T } := rfl
+  rw [this, growthRate_setLook c hb]
+
+theorem afterAdjust_setLook (c : Cfg α) (hb : c.binary = false) (L : α × List (List α) × List (List α)) (s : St α) (p : Nat)
+    (ps : PhaseSt α) (g2 : Grid.State α) (change : Bool) (added : Option Nat) (u : UpdAns α) :
+    afterAdjust c (setLook L s) p ps g2 change added u = setLook L (afterAdjust c s p ps g2 change added u) := by
+  unfold afterAdjust
+  simp only [hb, Bool.false_eq_true, if_false]
+  split
+  · let ps2 : PhaseSt α := { ps with grid := g2 }
+    let ps3 : PhaseSt α := { ps2 with growth := zerosL g2.bounds.length }
+    let ps4 : PhaseSt α := { ps3 with
+                               xaT := List.replicate c.nElem (zerosL (g2.bins + 1)),
+                               xbT := List.replicate c.nElem (zerosL (g2.bins + 1)) }
+    let S4 : St α := { s with ph := setPh (setPh (setPh s.ph p ps2) p ps3) p ps4 }
+    have := growthRate_setLook c hb L S4 u.regrow (s.cur c.nElem)
+    exact congrArg Prod.fst this
+  · rfl
+
+theorem updatePh_setLook (c : Cfg α) (hb : c.binary = false) (L : α × List (List α) × List (List α)) (s : St α) (t : α)
+    (p : Nat) (xp : List α) (u : UpdAns α) :
+    updatePh c (setLook L s) t p xp u = (updatePh c s t p xp u).map (setLook L) := by
+  unfold updatePh
+  simp only [setLook_ph]
+  have hcur : (setLook L s).cur c.nElem = s.cur c.nElem := rfl
+  rw [hcur]
+  cases s.ph[p]? with
+  | none => rfl
+  | some ps =>
+    simp only
+    split
+    · rfl
+    · split
+      · rfl
+      · cases Grid.update ps.grid t xp with
+        | none => rfl
+        | some g1 =>
+          simp only
+          cases Grid.adjust g1 (ps.growth.all (fun v => decide (v < 0))) with
+          | none => rfl
+          | some r =>
+            obtain ⟨g2, change, added⟩ := r
+            simp only
+            rw [afterAdjust_setLook c hb]
+            simp only [setLook_ph]
+            cases (afterAdjust c s p ps g2 change added u).ph[p]? with
+            | none => rfl
+            | some psF => rfl
+
+theorem updateAll_setLook (c : Cfg α) (hb : c.binary = false) (L : α × List (List α) × List (List α)) (t : α) :
+    ∀ (xs : List (List α)) (s : St α) (p : Nat) (us : List (UpdAns α)),
+      updateAll c t (setLook L s) p xs us = (updateAll c t s p xs us).map (setLook L)
+  | [], s, p, us => by simp [updateAll]
+  | xp :: xs, s, p, us => by
+    simp only [updateAll]
+    rw [updatePh_setLook c hb]
+    cases updatePh c s t p xp (us.headD { table := [], xaNew := [], xbNew := [], regrow := { T := 0, ph := [], D := 0, table := [] } }) with
+    | none => rfl
+    | some s' => simp only [Option.map_some]; exact updateAll_setLook c hb L t xs s' (p+1) us.tail
+
+/-- everything the solver loop computes BEFORE the evaluations reads the state through the phases and the rows only -/
+theorem entryX_setLook (c : Cfg α) (L : α × List (List α) × List (List α)) (s : St α) : entryX c (setLook L s) = entryX c s := rfl
+theorem acceptedDt_setLook (c : Cfg α) (L : α × List (List α) × List (List α)) (s : St α) (tf dtminS dtmaxS : α) :
+    acceptedDt c (setLook L s) tf dtminS dtmaxS = acceptedDt c s tf dtminS dtmaxS := rfl
+theorem proposedDt_setLook (c : Cfg α) (L : α × List (List α) × List (List α)) (s : St α) (tf : α) :
+    proposedDt c (setLook L s) tf = proposedDt c s tf := rfl
+theorem stageX_setLook (c : Cfg α) (L L' : α × List (List α) × List (List α)) (s sF : St α) (x : List (List α)) (y : Slice α)
+    (dt : α) : stageX c (setLook L s) (setLook L' sF) x y dt = stageX c s sF x y dt := rfl
+theorem processAll_setLook (c : Cfg α) (L : α × List (List α) × List (List α)) (s : St α) (x : List (List α)) :
+    processAll c (setLook L s) x = processAll c s x := rfl
+
+theorem finishStep_setLook (c : Cfg α) (hb : c.binary = false) (L : α × List (List α) × List (List α)) (e : St α × Slice α)
+    (t' : α) (xP : List (List α)) (upd : List (UpdAns α)) :
+    finishStep c (setLook L e.1, e.2) t' xP upd = (finishStep c e t' xP upd).map (setLook L) := by
+  unfold finishStep
+  exact updateAll_setLook c hb L t' xP { e.1 with hist := e.2 :: e.1.hist } 0 upd
+
+/-- the step output with the lookup attributes of its state overwritten -/
+def outLook (L : α × List (List α) × List (List α)) (o : StepOut α) : StepOut α := { o with st := setLook L o.st }
+
+theorem eulerStep_setLook (c : Cfg α) (hb : c.binary = false) (L : α × List (List α) × List (List α)) (s : St α)
+    (tf dtminS dtmaxS : α) (aPost : EvalAns α) (upd : List (UpdAns α)) :
+    eulerStep c (setLook L s) tf dtminS dtmaxS aPost upd = (eulerStep c s tf dtminS dtmaxS aPost upd).map (outLook L) := by
+  have hev : evaluated c (setLook L s) tf dtminS dtmaxS aPost =
+      (setLook L (evaluated c s tf dtminS dtmaxS aPost).1, (evaluated c s tf dtminS dtmaxS aPost).2) := by
+    unfold evaluated
+    exact depEval_setLook c hb L s _ _ aPost _
+  have hadv : ∀ dt, advanced c (setLook L s) dt = advanced c s dt := fun _ => rfl
+  have hcur : (setLook L s).cur c.nElem = s.cur c.nElem := rfl
+  unfold eulerStep
+  simp only
+  rw [hev, finishStep_setLook c hb L (evaluated c s tf dtminS dtmaxS aPost)]
+  simp only [acceptedDt_setLook, proposedDt_setLook, processAll_setLook, hadv, hcur]
+  cases finishStep c (evaluated c s tf dtminS dtmaxS aPost) ((s.cur c.nElem).time + acceptedDt c s tf dtminS dtmaxS)
+      (processAll c s (advanced c s (acceptedDt c s tf dtminS dtmaxS))) upd with
+  | none => rfl
+  | some sD => rfl
+
+theorem rk4Step_setLook (c : Cfg α) (hb : c.binary = false) (L : α × List (List α) × List (List α)) (s : St α)
+    (tf dtminS dtmaxS : α) (a2 a3 a4 aPost : EvalAns α) (upd : List (UpdAns α)) :
+    rk4Step c (setLook L s) tf dtminS dtmaxS a2 a3 a4 aPost upd =
+      (rk4Step c s tf dtminS dtmaxS a2 a3 a4 aPost upd).map (outLook L) := by
+  -- the three intermediate evaluations and the final one, each commuting with `setLook`
+  have hcur : (setLook L s).cur c.nElem = s.cur c.nElem := rfl
+  have hevals : ∀ dt, rk4Evals c (setLook L s) dt a2 a3 a4 =
+      { s2 := (setLook L (rk4Evals c s dt a2 a3 a4).s2.1, (rk4Evals c s dt a2 a3 a4).s2.2),
+        s3 := (setLook L (rk4Evals c s dt a2 a3 a4).s3.1, (rk4Evals c s dt a2 a3 a4).s3.2),
+        s4 := (setLook L (rk4Evals c s dt a2 a3 a4).s4.1, (rk4Evals c s dt a2 a3 a4).s4.2),
+        xNew := (rk4Evals c s dt a2 a3 a4).xNew } := by
+    intro dt
+    unfold rk4Evals
+    simp only [hcur, entryX_setLook, stageX_setLook, processAll_setLook, depEval_setLook c hb]
+  have hpost : rk4Post c (setLook L s) tf dtminS dtmaxS a2 a3 a4 aPost =
+      (setLook L (rk4Post c s tf dtminS dtmaxS a2 a3 a4 aPost).1, (rk4Post c s tf dtminS dtmaxS a2 a3 a4 aPost).2) := by
+    unfold rk4Post
+    simp only [acceptedDt_setLook, hcur, hevals, processAll_setLook]
+    exact depEval_setLook c hb L _ _ _ aPost _
+  unfold rk4Step
+  simp only [acceptedDt_setLook, proposedDt_setLook, hcur, hevals, processAll_setLook]
+  rw [hpost, finishStep_setLook c hb L (rk4Post c s tf dtminS dtmaxS a2 a3 a4 aPost)]
+  cases finishStep c (rk4Post c s tf dtminS dtmaxS a2 a3 a4 aPost) ((s.cur c.nElem).time + acceptedDt c s tf dtminS dtmaxS)
+      (processAll c (rk4Evals c s (acceptedDt c s tf dtminS dtmaxS) a2 a3 a4).s4.1
+        (rk4Evals c s (acceptedDt c s tf dtminS dtmaxS) a2 a3 a4).xNew) upd with
+  | none => rfl
+  | some sD => rfl
+
+theorem anyStep_setLook (c : Cfg α) (hb : c.binary = false) (L : α × List (List α) × List (List α)) (s : St α)
+    (tf dtminS dtmaxS : α) (au : StepAns α) :
+    anyStep c (setLook L s) tf dtminS dtmaxS au = (anyStep c s tf dtminS dtmaxS au).map (outLook L) := by
+  cases au with
+  | euler a u => exact eulerStep_setLook c hb L s tf dtminS dtmaxS a u
+  | rk4 a2 a3 a4 a u => exact rk4Step_setLook c hb L s tf dtminS dtmaxS a2 a3 a4 a u
+
+/-- **multicomponent runs never read the binary lookup attributes**: overwriting them before a run changes nothing but those
+attributes in the result — every recorded row, grid, table, growth field and the carried step limit are the same -/
+theorem runSteps_setLook (c : Cfg α) (hb : c.binary = false) (L : α × List (List α) × List (List α)) (tf dtminS : α) :
+    ∀ (steps : List (StepAns α)) (s : St α) (m : α),
+      runSteps c tf dtminS (setLook L s) m steps = (runSteps c tf dtminS s m steps).map (fun r => (setLook L r.1, r.2))
+  | [], s, m => by simp [runSteps]
+  | au :: rest, s, m => by
+    have hcur : (setLook L s).cur c.nElem = s.cur c.nElem := rfl
+    have hdm : dtmaxNow c (setLook L s) tf m = dtmaxNow c s tf m := rfl
+    simp only [runSteps, hcur, hdm]
+    split
+    · rw [anyStep_setLook c hb]
+      cases anyStep c s tf dtminS m au with
+      | none => rfl
+      | some o =>
+        simp only [Option.map_some, outLook]
+        exact runSteps_setLook c hb L tf dtminS rest o.st _
+    · rfl
+
+/-- the three binary-lookup attributes of a state -/
+def lookOf (s : St α) : α × List (List α) × List (List α) := (s.lookT, s.lookEqA, s.lookEqB)
+
+theorem setLook_lookOf (s t : St α) (h1 : s.ph = t.ph) (h2 : s.hist = t.hist) : s = setLook (lookOf s) t := by
+  cases s; cases t; simp_all [setLook, lookOf]
+
+/-- the row `setup()` writes the equilibrium compositions into (multicomponent branch) -/
+def setupRowM (c : Cfg α) (s : St α) (a : EvalAns α) (eqMulti : List (Option (List α × List α))) : Slice α :=
+  let row1 : Slice α := { s.cur c.nElem with comp := c.x0, temp := a.T }
+  { row1 with ph := row1.ph.mapIdx (fun p yp => match eqMulti.getD p none with
+                                                 | some (ea, eb) => { yp with xEqA := ea, xEqB := eb }
+                                                 | none => yp) }
+
+/-- **`reset()` forgets the past (multicomponent models)**: after `reset(); setup()` two models configured alike are in the same
+state EXCEPT for the three binary-lookup attributes, which `reset` does not touch and a multicomponent model never reads -/
+theorem reset_forgets_multi_setup (c : Cfg α) (sA sB : St α) (a : EvalAns α) (eq : List (Option (List α × List α)))
+    (hb : c.binary = false)
+    (hcfg : List.Forall₂ (fun p q : PhaseSt α => GridCfgEq p.grid q.grid) sA.ph sB.ph) :
+    setupState c (resetState c sA) a eq = setLook (lookOf sA) (setupState c (resetState c sB) a eq) := by
+  have hR := resetState_strip c sA sB hcfg
+  have hH : (resetState c sA).hist = (resetState c sB).hist := rfl
+  have hcurEq : (resetState c sA).cur c.nElem = (resetState c sB).cur c.nElem := rfl
+  have h0 : (setupS0 c (resetState c sA) a).ph.map stripT = (setupS0 c (resetState c sB) a).ph.map stripT := by
+    have e : ∀ l : List (PhaseSt α), (l.map (fun ps => { ps with grid := Grid.reset ps.grid true })).map stripT =
+        (l.map stripT).map (fun ps => { ps with grid := Grid.reset ps.grid true }) := by
+      intro l; simp only [List.map_map]; rfl
+    show ((resetState c sA).ph.map _).map stripT = ((resetState c sB).ph.map _).map stripT
+    rw [e, e, hR]
+  have hpre1 : ∀ s : St α, (setupPre c s a eq).1 =
+      { setupS0 c s a with ph := (setupS0 c s a).ph.map (fun ps =>
+          { ps with xaT := List.replicate c.nElem (zerosL (ps.grid.bins + 1)),
+                    xbT := List.replicate c.nElem (zerosL (ps.grid.bins + 1)) }) } := by
+    intro s; unfold setupPre setupS0; simp only [hb, Bool.false_eq_true, if_false]
+  have hpre2 : ∀ s : St α, (setupPre c s a eq).2 = setupRowM c s a eq := by
+    intro s; unfold setupPre setupRowM; simp only [hb, Bool.false_eq_true, if_false]
+  have hrow : (setupPre c (resetState c sA) a eq).2 = (setupPre c (resetState c sB) a eq).2 := by
+    rw [hpre2, hpre2]; unfold setupRowM; rw [hcurEq]
+  have hph : (setupPre c (resetState c sA) a eq).1.ph.map stripG = (setupPre c (resetState c sB) a eq).1.ph.map stripG := by
+    rw [hpre1, hpre1]
+    simp only [List.map_map]
+    exact map_strip_congr _ stripT (fun _ => rfl) _ _ h0
+  have hlook : lookOf (setupPre c (resetState c sA) a eq).1 = lookOf sA := by rw [hpre1]; rfl
+  rw [setupState_eq, setupState_eq]
+  simp only
+  generalize setupPre c (resetState c sA) a eq = pA at hrow hph hlook ⊢
+  generalize setupPre c (resetState c sB) a eq = pB at hrow hph ⊢
+  have hpsd : pA.1.ph.map (fun ps => ps.grid.psd) = pB.1.ph.map (fun ps => ps.grid.psd) :=
+    map_strip_congr _ stripG (fun _ => rfl) _ _ hph
+  have hy : nucleation c { pA.1 with hist := pA.2 :: (resetState c sA).hist.tail } ((resetState c sA).cur c.nElem).time
+        (pA.1.ph.map (fun ps => ps.grid.psd)) a { (resetState c sA).cur c.nElem with comp := c.x0, temp := a.T } =
+      nucleation c { pB.1 with hist := pB.2 :: (resetState c sB).hist.tail } ((resetState c sB).cur c.nElem).time
+        (pB.1.ph.map (fun ps => ps.grid.psd)) a { (resetState c sB).cur c.nElem with comp := c.x0, temp := a.T } := by
+    rw [hpsd, hcurEq]
+    exact nucleation_congr c _ _ _ _ a _ (by show pA.2 :: _ = pB.2 :: _; rw [hrow, hH]) hph
+  have hs2 : ({ pA.1 with
+                  ph := pA.1.ph.map (fun ps => { ps with growth := zerosL (ps.grid.bins + 1) }),
+                  hist := pA.2 :: (resetState c sA).hist.tail } : St α) =
+             setLook (lookOf sA) { pB.1 with
+                  ph := pB.1.ph.map (fun ps => { ps with growth := zerosL (ps.grid.bins + 1) }),
+                  hist := pB.2 :: (resetState c sB).hist.tail } := by
+    rw [← hlook]
+    apply setLook_lookOf
+    · exact map_strip_congr _ stripG (fun _ => rfl) _ _ hph
+    · show pA.2 :: _ = pB.2 :: _; rw [hrow, hH]
+  rw [hy, hs2, growthRate_setLook c hb, hH]
+  rfl
+
+/-- … and so is every later run -/
+theorem reset_forgets_multi (c : Cfg α) (sA sB : St α) (a : EvalAns α) (eq : List (Option (List α × List α)))
+    (tf dtminS dtmaxS : α) (steps : List (StepAns α)) (hb : c.binary = false)
+    (hcfg : List.Forall₂ (fun p q : PhaseSt α => GridCfgEq p.grid q.grid) sA.ph sB.ph) :
+    runFromSetup c (resetState c sA) a eq tf dtminS dtmaxS steps =
+      (runFromSetup c (resetState c sB) a eq tf dtminS dtmaxS steps).map (fun r => (setLook (lookOf sA) r.1, r.2)) := by
+  unfold runFromSetup
+  rw [reset_forgets_multi_setup c sA sB a eq hb hcfg]
+  exact runSteps_setLook c hb (lookOf sA) tf dtminS steps _ dtmaxS
+
 /-! ### non-vacuity
 
 `GridGood` is satisfiable (the grid a `PopulationBalanceModel` is constructed with).  The hypothesis `… = some o` of the step
